@@ -38,13 +38,14 @@ BRANCHES = ("tgt", "src", "div", "oth")
 KEYS = (b"r1", b"r2", b"r3", b"d2", b"c0", b"c1", b"c2", b"c3", b"c4", b"ghost")
 
 FULL = ("commit", "commit-co", "pull-src", "pull-div", "pull-div-ow", "push-src", "push-div-ow", "fetch-r3",
-        "set-tag", "del-tag", "set-opt", "set-tip", "lock", "unlock", "reopen", "obs", "oth-pull")
+        "set-tag", "del-tag", "set-opt", "set-tip", "lock", "unlock", "reopen", "obs", "revs", "oth-pull")
 CORE = ("commit", "pull-src", "pull-div-ow", "push-src", "set-tag", "del-tag", "lock", "unlock", "obs")
 QCORE = ("lock", "unlock", "commit", "pull-src", "set-tag", "obs")       # quick tier core, <= 3
 LOCKED = ("commit", "pull-src", "fetch-r3", "set-tag", "obs", "unlock")   # after an initial lock_write
 
 # ---- template histories --------------------------------------------------------------------------
 _TEMPLATES = {}
+_FMTCLASS = {}         # template key -> signature suffix naming the class of repository format
 
 
 def _spec(i):
@@ -59,10 +60,13 @@ def template(hist):
     """Snapshot of a store with branches tgt (the subject, at r1), src (ahead), div (diverged), oth (at r1)."""
     if hist in _TEMPLATES:
         return _TEMPLATES[hist]
+    key = hist
+    hist, _sep, fmt = hist.partition("@")
+    fmt = fmt or "2a"
     from mc import vfs
     from mc import world as mw
     store = vfs.new_store()
-    src = mw.make_branch(store.url + "src", "2a")
+    src = mw.make_branch(store.url + "src", fmt)
     mw.commit_spec(src, b"r1", [], _spec(1), timestamp=1000.0)
     for name in ("tgt", "div", "oth"):
         src.controldir.sprout(store.url + name, revision_id=b"r1")
@@ -77,18 +81,44 @@ def template(hist):
         mw.commit_spec(src, b"r3", [b"r2", b"d2"], _spec(3), timestamp=1002.0)
     else:
         raise ValueError(hist)
-    src.tags.set_tag("v1", b"r1")
-    src.tags.set_tag("v3", b"r3")
-    div.tags.set_tag("v1", b"d2")          # conflicts with src's v1 when both reach the subject
     tgt = Branch.open(store.url + "tgt")
-    tgt.tags.set_tag("old", b"r1")
+    if src.supports_tags():
+        src.tags.set_tag("v1", b"r1")
+        src.tags.set_tag("v3", b"r3")
+        div.tags.set_tag("v1", b"d2")          # conflicts with src's v1 when both reach the subject
+        tgt.tags.set_tag("old", b"r1")
     tgt.get_config_stack().set("verif.key", "initial")
     for name in BRANCHES:
-        Branch.open(store.url + name).set_parent(None)
+        b = Branch.open(store.url + name)
+        if b.get_parent() is not None:
+            b.set_parent(None)
     snap = store.walk()
     store.close()
-    _TEMPLATES[hist] = snap
+    _TEMPLATES[key] = snap
+    ser = getattr(src.repository._format, "_inventory_serializer", None)
+    num = getattr(ser, "format_num", b"?")
+    _FMTCLASS[key] = "" if fmt == "2a" else "@serializer-%s" % (num.decode() if isinstance(num, bytes) else num)
     return snap
+
+
+def extra_formats():
+    """One registry name per distinct bzr repository format other than 2a, with its
+    (rich_root, tree_reference, chk) flags - computed from the registry, nothing hard-coded."""
+    from breezy import controldir
+    base = controldir.format_registry.make_controldir("2a").repository_format.network_name()
+    seen = {}
+    for k in sorted(controldir.format_registry.keys()):
+        try:
+            f = controldir.format_registry.make_controldir(k)
+            rf = f.repository_format
+            net = rf.network_name()
+        except Exception:  # noqa  formats that cannot be instantiated here
+            continue
+        if net == base or not net.startswith(b"Bazaar") or not rf.is_supported():
+            continue
+        seen.setdefault(net, (k, (bool(rf.rich_root_data), bool(rf.supports_tree_reference),
+                                  bool(getattr(rf, "supports_chks", False)))))
+    return sorted(seen.values())
 
 
 # ---- one side of an execution --------------------------------------------------------------------
@@ -178,10 +208,25 @@ def _result(r):
     return repr(type(r).__name__)
 
 
+_CURRENT = []          # the side whose operation is running (for _heal)
+
+
+def _heal():
+    """A read that fails half-way leaves its request open on the client medium and every later call
+    would only report TooManyConcurrentRequests; reads are compared one by one, so the connection is
+    put back into the idle state after each failed read (as a client that reconnects would)."""
+    from . import _loopback_l as lb
+    for side in _CURRENT:
+        for m in lb.MEDIA.get(side.key, []) if side.key else []:
+            m.disconnect()
+            m._current_request = None
+
+
 def _try(fn):
     try:
         return fn()
     except Exception as e:  # noqa  compared by class
+        _heal()
         return ("EXC", type(e).__name__)
 
 
@@ -228,6 +273,42 @@ def _observe(side):
         out.append(("graph-heads", _try(lambda: sorted(repo.get_graph().heads([tip, b"r1", b"d2"])))))
         out.append(("locked", _try(b.is_locked)))
     out.append(("phys", _try(b.get_physical_lock_status)))
+    return tuple(out)
+
+
+def _read_revisions(side):
+    """Per-revision reads, one call per revision: revision tree, the single inventory, the revision
+    record and every file text of that revision; then the same in bulk."""
+    from mc import world as mw
+    b = side.subject()
+    out = []
+    with b.lock_read():
+        repo = b.repository
+        revs = sorted(repo.all_revision_ids())
+        out.append(("all", tuple(revs)))
+
+        def inv_dump(inv):
+            return (inv.revision_id, tuple((p, ie.file_id, ie.revision, ie.kind) for p, ie in inv.iter_entries()))
+
+        for r in revs:
+            out.append(("tree:%s" % r.decode(), _try(lambda: mw.dump_tree(repo.revision_tree(r), with_revision=True))))
+            out.append(("inventory:%s" % r.decode(), _try(lambda: [inv_dump(i) for i in repo.iter_inventories([r])])))
+
+            def rev():
+                x = repo.get_revision(r)
+                return (x.revision_id, tuple(x.parent_ids), x.message, x.committer, x.timestamp, x.timezone,
+                        sorted(x.properties.items()))
+            out.append(("revision:%s" % r.decode(), _try(rev)))
+
+            def texts():
+                t = repo.revision_tree(r)
+                want = [(ie.file_id, ie.revision, p) for p, ie in t.iter_entries_by_dir() if ie.kind == "file"]
+                return sorted((p, b"".join(chunks)) for p, chunks in repo.iter_files_bytes(want))
+            out.append(("texts:%s" % r.decode(), _try(texts)))
+        out.append(("inventories-bulk", _try(lambda: [inv_dump(i) for i in repo.iter_inventories(revs)])))
+        out.append(("trees-bulk", _try(lambda: [mw.dump_tree(t, with_revision=True)
+                                                for t in repo.revision_trees(revs)])))
+        out.append(("revisions-bulk", _try(lambda: [x.revision_id for x in repo.get_revisions(revs)])))
     return tuple(out)
 
 
@@ -288,16 +369,21 @@ def apply_op(side, op):
             return type(side.subject()).__name__ != ""
         if op == "obs":
             return _observe(side)
+        if op == "revs":
+            return _read_revisions(side)
         if op == "oth-pull":
             return Branch.open(side.store.url + "oth").pull(b)
         raise ValueError(op)
 
+    _CURRENT[:] = [side]
     try:
         return side.canon(_result(go()))
     except HarnessError:
         raise
     except Exception as e:  # noqa  compared by class
         return ("EXC", type(e).__name__)
+    finally:
+        _CURRENT[:] = []
 
 
 def dump_store(side):
@@ -311,7 +397,10 @@ def dump_store(side):
         with b.lock_read():
             repo = b.repository
             revs = sorted(repo.all_revision_ids())
-            conf = b.control_transport.get_bytes("branch.conf")
+            try:
+                conf = b.control_transport.get_bytes("branch.conf")
+            except Exception:  # noqa  old branch formats have no branch.conf until something is set
+                conf = b""
             try:
                 parsed = configobj.ConfigObj(conf.decode("utf-8").splitlines())
                 conf_c = sorted((k, repr(v)) for k, v in parsed.items())
@@ -319,7 +408,7 @@ def dump_store(side):
                 conf_c = ("unparsable", type(e).__name__, conf)
             out[name] = {
                 "tip": b.last_revision_info(),
-                "tags": sorted(b.tags.get_tag_dict().items()),
+                "tags": sorted(b.tags.get_tag_dict().items()) if b.supports_tags() else "unsupported",
                 "conf": side.canon(conf_c),
                 "revs": [(r, mw.testament(repo, r)) for r in revs],
                 "branch_locked": b.get_physical_lock_status(),
@@ -384,22 +473,40 @@ def compare(hist, seq, results, dumps, acc, best):
     return value makes everything after it differ as a mere consequence)."""
     ok = True
     for name in SIDES[1:]:
-        ret = None          # (0-based step, signature, detail) of the first differing return value
+        ret = None          # (0-based step, [(signature, detail)]) of the first differing step
+        fc = _FMTCLASS.get(hist, "")
         for k, (a, b) in enumerate(zip(results["local"], results[name])):
             if a != b:
                 op = seq[k]
-                what = "return"
-                detail = {"local": a, name: b}
-                if op == "obs" and not _is_exc(a) and not _is_exc(b):
+                sigs = []
+                base = {"history": hist, "sequence": list(seq[:k + 1]), "step": k, "side": name}
+                if op in ("obs", "revs") and not _is_exc(a) and not _is_exc(b):
                     da = dict(a)
                     db = dict(b)
-                    diff = sorted(x for x in da if da.get(x) != db.get(x))
-                    what = "read:" + diff[0]
-                    detail = {"local": da[diff[0]], name: db.get(diff[0]), "all_differing_reads": diff}
-                elif _is_exc(a) or _is_exc(b):
-                    what = "exception"
-                ret = (k, "%s:%s-differs:%s:%s" % (op, what, _context(seq, k), name),
-                       {"history": hist, "sequence": list(seq[:k + 1]), "step": k, "side": name, "differs": detail})
+                    order = [x for x, _v in a if da.get(x) != db.get(x)]
+                    rest = []
+                    seen_f = set()
+                    for x in order:
+                        # the remote read raises where the local one answers (or raises something else): one signature per
+                        # (abstract read, exception class), independent of what happened before
+                        if _is_exc(db.get(x)) and (not _is_exc(da[x]) or da[x] != db[x]):
+                            f = x.split(":")[0]
+                            if (f, db[x][1]) not in seen_f:
+                                seen_f.add((f, db[x][1]))
+                                sigs.append(("%s:read:%s:raises-%s:%s%s" % (op, f, db[x][1], name, fc),
+                                             dict(base, differs={"read": x, "local": da[x], name: db[x]})))
+                        else:
+                            rest.append(x)
+                    if rest:
+                        first = sorted(rest)[0]
+                        sigs.append(("%s:read:%s-differs:%s:%s%s" % (op, first.split(":")[0], _context(seq, k), name, fc),
+                                     dict(base, differs={"local": da[first], name: db.get(first),
+                                                         "all_differing_reads": sorted(rest)})))
+                else:
+                    what = "exception" if (_is_exc(a) or _is_exc(b)) else "return"
+                    sigs.append(("%s:%s-differs:%s:%s%s" % (op, what, _context(seq, k), name, fc),
+                                 dict(base, differs={"local": a, name: b})))
+                ret = (k, sigs)
                 break
         sto = None          # (number of steps after which the stores first differ, signature, detail)
         if dumps["local"] != dumps[name]:
@@ -417,7 +524,7 @@ def compare(hist, seq, results, dumps, acc, best):
                     if dl[br][field] != dn[br][field]:
                         where.append((br, field))
             br, field = where[0]
-            sto = (k, "%s:store-%s-differs:%s:%s" % (seq[k - 1], field, _context(seq, k - 1), name),
+            sto = (k, "%s:store-%s-differs:%s:%s%s" % (seq[k - 1], field, _context(seq, k - 1), name, fc),
                    {"history": hist, "sequence": list(seq[:k]), "side": name, "branch": br, "field": field,
                     "local": dl[br][field], name: dn[br][field], "all_differing": where})
         if ret is None and sto is None:
@@ -427,7 +534,8 @@ def compare(hist, seq, results, dumps, acc, best):
             # the stores already differed before the step whose return value differs
             _note(best, acc, sto[1], tuple(sto[2]["sequence"]), sto[2])
         else:
-            _note(best, acc, ret[1], tuple(ret[2]["sequence"]), ret[2])
+            for sig, det in ret[1]:
+                _note(best, acc, sig, tuple(det["sequence"]), det)
             if sto is not None and sto[0] == ret[0] + 1:
                 _note(best, acc, sto[1], tuple(sto[2]["sequence"]), sto[2])
     return ok
@@ -505,6 +613,7 @@ def locked_sequences(n):
 
 
 DEEP = ("commit", "pull-src", "obs")
+FMT_OPS = ("commit", "pull-src", "push-src", "obs", "revs")      # run on every other repository format
 
 
 def deep_sequences(n):
@@ -537,16 +646,27 @@ def plan(ctx):
                  ("linear", "lock + {commit,pull-src,obs}^5", deep_sequences(5)),
                  ("merge", "FULL <= 2", sequences(FULL, 2)),
                  ("merge", "lock + LOCKED^3", locked_sequences(3))]
+    fmts = extra_formats()
+    for name, _flags in fmts:
+        table.append(("linear@" + name, "FMT_OPS <= 1 and (commit|pull-src|push-src, obs|revs)",
+                      sequences(FMT_OPS, 1) + [(m, r) for m in ("commit", "pull-src", "push-src")
+                                               for r in ("obs", "revs")]))
     for hist, _n, seqs in table:
         add(hist, seqs)
     items.sort(key=lambda x: (len(x[1]), x[0], x[1]))
     return items, {"enumerated": [{"history": h, "sequences": n, "count": len(q)} for h, n, q in table],
-                   "alphabets": {"FULL": list(FULL), "CORE": list(CORE), "QCORE": list(QCORE), "LOCKED": list(LOCKED), "DEEP": list(DEEP)},
+                   "alphabets": {"FULL": list(FULL), "CORE": list(CORE), "QCORE": list(QCORE), "LOCKED": list(LOCKED), "DEEP": list(DEEP), "FMT_OPS": list(FMT_OPS)},
+                   "repository_formats": [["2a", [True, True, True]]] + [[n, list(f)] for n, f in fmts],
+                   "format_flags": "(rich_root, tree_reference, chk)",
                    "sides": list(SIDES)}
 
 
+def _templates_needed(ctx):
+    return sorted({h for h, _s in plan(ctx)[0]})
+
+
 def run(ctx):
-    for h in ctx.q(("linear",), ("linear", "merge")):
+    for h in _templates_needed(ctx):
         template(h)               # built once in the parent, inherited by the forked workers
         template_dump(h)
     items, bounds = plan(ctx)
@@ -600,8 +720,6 @@ def _cpu_seconds():
 
 def replay(ctx, data):
     d = data["first"]
-    for h in ("linear", "merge"):
-        template(h)
     acc = par.Acc()
     best = {}
     seq = tuple(d["sequence"])
